@@ -577,4 +577,5 @@ def run(F, R, tier):
                 okc = False
     r7.site("DIDUrlQuery: %d From conversions, each wrapping the whole value: %s" % (len(convs), okc))
     r7.require(len(convs) >= 4, ("DIDUrlQuery", "conversions"), "expected the From<&str|&String|DIDUrl|&DIDUrl|&RelativeDIDUrl> conversions of DIDUrlQuery")
+    L.depends_on(r7, F, tier, ["C19-R2"], "first-match resolution returns the entry the model predicts only while the sets keep insertion order under every operation (a removal that moves the last entry into the hole changes which of two entries sharing a fragment is first)")
     r7.floor(3)
